@@ -70,7 +70,8 @@ def sequences(tier):
 def jobs(tier):
     seqs = list(sequences(tier))
     ctxs = CONTEXTS if tier == "thorough" else ("none", "u8-before", "u32-after", "dyn-between", "struct-after", "void-between")
-    return [(tier, c, ctxs) for c in defs.chunks(seqs, 12 if tier == "quick" else 30)]
+    sp = [s_ for s_ in seqs if len(s_) <= 2 and all(w in (1, 3, 4, 5, 12, 31) for _, w in s_)]
+    return [(tier, c, ctxs) for c in defs.chunks(seqs, 12 if tier == "quick" else 30)] + [("spellings", c, ("none", "u32-after", "dyn-between")) for c in defs.chunks(sp, 40)]
 
 
 def build(seq, context):
@@ -127,11 +128,20 @@ def write_values(width: int):
     return out
 
 
-def check_case(seq, context, endian, align, res: JobResult, tier="quick"):
+import sys as _sys
+
+NATIVE = "<" if _sys.byteorder == "little" else ">"
+SPELLINGS = {"@": NATIVE, "=": NATIVE, "!": ">"}  # other spellings the library accepts for a byte order -> the order they denote
+
+
+def check_case(seq, context, endian, align, res: JobResult, tier="quick", spelling=None):
+    """`spelling`: how the byte order `endian` is spelled when the cstruct object is created ('@', '=' native; '!' network)."""
     st = build(seq, context)
     text = render(st)
     cfg = Cfg(endian=endian, align=align)
     case = {"seq": [list(x) for x in seq], "context": context, "endian": endian, "align": align}
+    if spelling:
+        case["spelling"] = spelling
     kinds = "/".join(f"{s}:{w}" for s, w in seq)
     stypes = sorted({s for s, _ in seq})
 
@@ -148,7 +158,7 @@ def check_case(seq, context, endian, align, res: JobResult, tier="quick"):
         reject = False
     except RefReject:
         reject = True
-    L = sc.Loaded(text, endian, align)
+    L = sc.Loaded(text, spelling or endian, align)
     res.transitions += 2
     res.evaluations += 1
     if reject:
@@ -288,7 +298,7 @@ def check_case(seq, context, endian, align, res: JobResult, tier="quick"):
                     elif len(out) != end or any((out[i] ^ data[i]) & mask[i] for i in range(end)):
                         viol("history:dump", f"loaded under {endian!r}, endianness now {now!r}, in={data[:end].hex()}: dumps {out.hex()}", reader, data.hex())
         finally:
-            L.cs[compiled].endian = endian
+            L.cs[compiled].endian = spelling or endian
     if len(res.samples) < 2:
         res.samples.append({"definition": text, "endian": endian, "align": align, "context": context, "units": units, "inputs": len(ins)})
 
@@ -298,6 +308,20 @@ def run(job) -> JobResult:
     tier, chunk, ctxs = job
     from ..runner import CaseTimeout, watchdog
 
+    if tier == "spellings":
+        # the byte order spelled '@' / '=' (native) or '!' (network) behaves like the order it denotes - for bits as for bytes
+        for seq in chunk:
+            for context in ctxs:
+                if context == "dyn-between" and len(seq) < 2:
+                    continue
+                for spelling, endian in SPELLINGS.items():
+                    for align in (False, True):
+                        try:
+                            with watchdog(60):
+                                check_case(tuple(tuple(x) for x in seq), context, endian, align, res, "quick", spelling=spelling)
+                        except CaseTimeout:
+                            res.violations.append(Violation("hang", f"hang|{context}", {"seq": [list(x) for x in seq], "context": context, "endian": endian, "align": align, "spelling": spelling}, "case did not finish within 60s"))
+        return res
     for seq in chunk:
         for context in ctxs:
             if context in ("u8-between", "dyn-between", "void-between", "zero-array-between") and len(seq) < 2:
@@ -314,7 +338,7 @@ def run(job) -> JobResult:
 
 def replay(case):
     res = JobResult()
-    check_case(tuple(tuple(x) for x in case["seq"]), case["context"], case["endian"], case["align"], res, "thorough")
+    check_case(tuple(tuple(x) for x in case["seq"]), case["context"], case["endian"], case["align"], res, "thorough", spelling=case.get("spelling"))
     return res.violations
 
 
